@@ -11,6 +11,7 @@ import numpy as np
 from .. import core, tlc
 from ..core import Tally, g_unit, qmul_int
 from ahrs.utils import metrics as MT
+import ahrs.utils as UT
 
 QM = ["qdist", "qeip", "qcip", "qad"]
 
@@ -50,7 +51,10 @@ def check_pair(t_, p, q, num, den, deg, cls):
                               ("negated", lambda: fn(-fp, fq.copy())), ("N-row", lambda: fn(np.array([filler, fp]), np.array([filler, fq]))[1]),
                               # square arrays: as many rows as a quaternion has components (and one less), where shape-based dispatch is ambiguous
                               ("4-row", lambda: fn(np.array([filler, fp, filler, fq]), np.array([filler, fq, fp, fp]))[1]),
-                              ("3-row", lambda: fn(np.array([filler, filler, fp]), np.array([fp, filler, fq]))[2])):
+                              ("3-row", lambda: fn(np.array([filler, filler, fp]), np.array([fp, filler, fq]))[2]),
+                              # the same function reached through the package namespace (ahrs.utils.<name>, as the documentation does)
+                              ("ahrs.utils namespace", lambda: getattr(UT, name)(fp.copy(), fq.copy())),
+                              ("ahrs.utils namespace, 3-row", lambda: getattr(UT, name)(np.array([filler, filler, fp]), np.array([fp, filler, fq]))[2])):
             t_.calls += 1
             o = core.outcome(call)
             if o[0] != "ok":
@@ -64,6 +68,9 @@ def check_pair(t_, p, q, num, den, deg, cls):
                 t_.fail("C18|%s|%s|not-closed-form|%s" % (name, variant, cls), dict(case, got=v, want=want[name]))
     for name, call in (("chordal", lambda: MT.chordal(Rp, Rq)), ("chordal[N-row]", lambda: MT.chordal(np.array([Rq, Rp]), np.array([Rq, Rq]))[1]),
                        ("chordal[3-row]", lambda: MT.chordal(np.array([Rq, Rq, Rp]), np.array([Rp, Rq, Rq]))[2]),
+                       ("chordal[ahrs.utils namespace]", lambda: UT.chordal(Rp, Rq)),
+                       ("chordal[ahrs.utils namespace, 3-row]", lambda: UT.chordal(np.array([Rq, Rq, Rp]), np.array([Rp, Rq, Rq]))[2]),
+
                        ("chordal[swapped]", lambda: MT.chordal(Rq, Rp)),
                        ("identity_deviation", lambda: MT.identity_deviation(Rp, Rq)), ("identity_deviation[swapped]", lambda: MT.identity_deviation(Rq, Rp)),
                        ("angular_distance", lambda: MT.angular_distance(Rp, Rq)), ("angular_distance[swapped]", lambda: MT.angular_distance(Rq, Rp))):
@@ -79,6 +86,10 @@ def check_pair(t_, p, q, num, den, deg, cls):
         v = float(o[1])
         if not (abs(v - want[base]) <= tol_of(base, t) and v >= 0):
             t_.fail("C18|%s|not-closed-form|%s" % (name, cls), dict(case, got=v, want=want[base]))
+    # the package namespace hands out the metrics module's own functions (a helper of the same name in a sibling module must not shadow them)
+    for name in QM + ["chordal", "identity_deviation", "angular_distance"]:
+        if getattr(UT, name, None) is not getattr(MT, name):
+            t_.fail("C18|%s|ahrs.utils.%s-is-not-the-metrics-function" % (name, name), {"resolves_to": repr(getattr(UT, name, None))[:120]})
     # the caller keeps its arrays and asks again (d(A,B), d(B,A), d(A,B)): every answer is the closed form
     held = [("chordal", MT.chordal, np.array([Rq, Rp]), np.array([Rq, Rq]))]
     held += [(name, getattr(MT, name), np.array([filler, fp]), np.array([filler, fq])) for name in QM]
